@@ -96,6 +96,17 @@ def reach_functions(F, root, depth=3, prefixes=("sozu_command_lib::", "<sozu_com
                 f = t.get("fn")
                 if f and f != c and f.startswith(prefixes):
                     work.append((f, d + 1))
+                # functions handed over as values: `.map(ClusterConfig::generate_requests)`
+                for a in t["args"]:
+                    if a.get("fn", "").startswith(prefixes):
+                        work.append((a["fn"], d + 1))
+            for bi, si, st in b.stmts():
+                rv = st.get("rv")
+                if not rv:
+                    continue
+                for o in [rv.get("a"), rv.get("b")] + rv.get("ops", []):
+                    if o and o.get("fn", "").startswith(prefixes):
+                        work.append((o["fn"], d + 1))
     return seen
 
 
